@@ -2,6 +2,7 @@ package lint
 
 import (
 	"fmt"
+	"go/token"
 	"go/types"
 	"reflect"
 	"strings"
@@ -700,7 +701,7 @@ func ruleCodecPair() *Rule {
 	return &Rule{
 		ID: id,
 		Text: "For encodeLogEntry/decodeLogEntry, encodePersistentState/decodePersistentState, encodeConfiguration/decodeConfiguration: every domain field is written to a message field and read back from the same one into the same domain field (LogEntry: all five fields including Offset), " +
-			"the filled message is what is marshalled and the unmarshalled message is what is read; the length prefix is written and read with the same Go type and the same byte order, as len(payload), before the payload, on the same stream. " +
+			"the filled message is what is marshalled and the unmarshalled message is what is read; the length prefix is written and read with the same Go type and the same byte order, as len(payload), before the payload, on the same stream, and the decoder refuses no length the encoder writes (0 is the length of a message whose fields are all zero). " +
 			"encodeMetadata/decodeMetadata marshal and unmarshal the same struct type with encoding/json and every field survives JSON.",
 		Floor: 24,
 		Run: func(p *Program) []Obligation {
@@ -783,6 +784,8 @@ func ruleCodecPair() *Rule {
 					ob.Verdict, ob.Detail = Discharged, "written and read as "+tbTypeName(ef.PrefixType)
 				}
 				out = append(out, ob)
+
+				out = append(out, p.tbZeroLengthAccepted(id, row.Dec, dec, pair))
 
 				ob = Obligation{Rule: id, Construct: "length prefix byte order in codec pair " + pair, Pos: ef.Pos}
 				switch {
@@ -994,4 +997,113 @@ func ruleJSONTags() *Rule {
 			return out
 		},
 	}
+}
+
+
+// tbZeroLengthAccepted: proto.Marshal of a message whose fields are all zero is empty, and the encoders write that
+// record as a bare length 0 (term 0 with no vote; the log's first placeholder). A decoder that tests the length it has
+// read and fails for 0 cannot read back what its encoder wrote.
+func (p *Program) tbZeroLengthAccepted(id, decName string, dec *ssa.Function, pair string) Obligation {
+	ob := Obligation{Rule: id, Construct: "length 0 is accepted by the decoder of codec pair " + pair, Pos: p.Pos(dec.Pos())}
+	root := func(v ssa.Value) ssa.Value {
+		for {
+			switch x := v.(type) {
+			case *ssa.Convert:
+				v = x.X
+				continue
+			case *ssa.ChangeType:
+				v = x.X
+				continue
+			case *ssa.UnOp:
+				if x.Op == token.MUL {
+					if al, ok := x.X.(*ssa.Alloc); ok {
+						return al
+					}
+				}
+			}
+			return v
+		}
+	}
+	var sizes []ssa.Value
+	for _, b := range dec.Blocks {
+		for _, in := range b.Instrs {
+			if ms, ok := in.(*ssa.MakeSlice); ok {
+				sizes = append(sizes, root(ms.Len))
+			}
+		}
+	}
+	if len(sizes) == 0 {
+		ob.Verdict, ob.Detail = Undecided, "no buffer made from the length that was read"
+		return ob
+	}
+	isSize := func(v ssa.Value) bool {
+		r := root(v)
+		for _, s := range sizes {
+			if r == s {
+				return true
+			}
+		}
+		return false
+	}
+	for _, b := range dec.Blocks {
+		iff, ok := b.Instrs[len(b.Instrs)-1].(*ssa.If)
+		if !ok {
+			continue
+		}
+		bo, ok := iff.Cond.(*ssa.BinOp)
+		if !ok {
+			continue
+		}
+		var k int64
+		var op token.Token
+		switch {
+		case isSize(bo.X):
+			c, isC := constIntOf(stripConv(bo.Y))
+			if !isC {
+				continue
+			}
+			k, op = c, bo.Op
+		case isSize(bo.Y):
+			c, isC := constIntOf(stripConv(bo.X))
+			if !isC {
+				continue
+			}
+			// k op size  ==  size op' k
+			k = c
+			op = map[token.Token]token.Token{token.LSS: token.GTR, token.GTR: token.LSS, token.LEQ: token.GEQ, token.GEQ: token.LEQ, token.EQL: token.EQL, token.NEQ: token.NEQ}[bo.Op]
+		default:
+			continue
+		}
+		var at0 bool
+		switch op {
+		case token.LSS:
+			at0 = 0 < k
+		case token.LEQ:
+			at0 = 0 <= k
+		case token.GTR:
+			at0 = 0 > k
+		case token.GEQ:
+			at0 = 0 >= k
+		case token.EQL:
+			at0 = k == 0
+		case token.NEQ:
+			at0 = k != 0
+		default:
+			continue
+		}
+		arm := b.Succs[1]
+		if at0 {
+			arm = b.Succs[0]
+		}
+		if ret, ok := arm.Instrs[len(arm.Instrs)-1].(*ssa.Return); ok {
+			if succ, known := successReturn(ret); known && !succ {
+				ob.Verdict = Violated
+				ob.Pos = p.InstrPos(iff)
+				ob.Detail = decName + " fails when the length it has read is 0, and the encoder writes exactly that for a record whose fields are all zero (term 0 and no vote; the log's first placeholder): once such a record is on disk every reopen of the storage — every NewRaft over the directory — fails"
+				return ob
+			}
+		}
+	}
+	ob.Verdict, ob.Detail = Discharged, "no test of the length that was read fails for 0"
+	return ob
 }
